@@ -274,6 +274,11 @@ class DotProductAttentionPlugin(PrimitiveLeafPlugin):
         }
         has_mask = bool(params.get("has_mask", False))
         has_bias = bool(params.get("has_bias", False))
+        if bool(params.get("is_causal", False)):
+            raise NotImplementedError(
+                "nnx.dot_product_attention(..., is_causal=True) is not supported; "
+                "pass the causal mask explicitly via `mask`."
+            )
 
         invars = list(eqn.invars)
         q_var, k_var, v_var = invars[:3]
